@@ -80,6 +80,9 @@ func (x *Exec) step(fr *Frame, st *State, ins ssa.Instruction, cont func(*Frame,
 		p := x.operand(fr, st, in.Addr).(*PtrV)
 		v := x.operand(fr, st, in.Val)
 		x.StoreTo(st, p, v)
+		if !storeRootIsLocal(in.Addr) {
+			x.bumpEpoch(st)
+		}
 	case *ssa.Lookup:
 		fr.vals[in] = x.lookup(fr, st, in)
 	case *ssa.MapUpdate:
